@@ -129,7 +129,7 @@ func NewWorld(s *core.Sched, sc *Scenario) *World { return newWorld(s, sc, false
 
 func newWorld(s *core.Sched, sc *Scenario, real bool) *World {
 	w := &World{S: s, Sc: sc, Net: &simhttp.Net{S: s}, byID: map[string]*CallObs{}, clients: map[string]*connect.Client[Msg, Msg]{}}
-	w.pools = newPools(sc.PoolFIFO)
+	w.pools = newPools(sc.PoolFIFO, sc.PoolDrop)
 	setPools(w.pools)
 	for i := range sc.Handlers {
 		w.handlers = append(w.handlers, w.buildHandlers(i, &sc.Handlers[i]))
